@@ -40,7 +40,7 @@ func runC05(c *Ctx) bool {
 		c.Progress(false)
 	})
 	base := gen.CountLabeled(nMax, 2)
-	nRand := c.Pick(6000, 100000)
+	nRand := c.Pick(6000, 400000)
 	for j := 0; j < nRand; j++ {
 		idx := base + j
 		if !c.Mine(idx) {
